@@ -206,12 +206,83 @@ func c15NoQuery(raw string) string {
 	return raw
 }
 
+// c15Parts splits an identifier into the components the relation classes talk about.  The scheme is
+// taken from the raw string (url.Parse lower-cases it); one trailing slash of the path is dropped.
+type c15Parts struct{ scheme, user, host, port, path, query, frag string }
+
+func c15Split(raw string) (c15Parts, bool) {
+	u, err := url.Parse(raw)
+	i := strings.Index(raw, "://")
+	if err != nil || i <= 0 || u.Opaque != "" || u.Host == "" {
+		return c15Parts{}, false
+	}
+	q := u.RawQuery
+	if u.ForceQuery {
+		q = "?"
+	}
+	return c15Parts{scheme: raw[:i], user: u.User.String(), host: u.Hostname(), port: u.Port(),
+		path: strings.TrimSuffix(u.EscapedPath(), "/"), query: q, frag: u.EscapedFragment()}, true
+}
+
+// c15Rel is the harness's own reading of the relation of identifier a to the expected identifier b
+// (the classes of OAuthFlow.tla: IssSame, IssEquiv, IssNear, "other"), computed from the concrete strings.
+// A near-miss class is reported only if the two differ in exactly that respect.
 func c15Rel(a, b string) string {
 	switch {
 	case a == b:
 		return "exact"
 	case strings.TrimSuffix(a, "/") == strings.TrimSuffix(b, "/"):
 		return "slash"
+	}
+	pa, oka := c15Split(a)
+	pb, okb := c15Split(b)
+	if !oka || !okb {
+		return "other"
+	}
+	diff := map[string]bool{}
+	switch {
+	case pa.scheme == pb.scheme:
+	case strings.EqualFold(pa.scheme, pb.scheme):
+		diff["case"] = true
+	default:
+		diff["scheme"] = true
+	}
+	if pa.user != pb.user {
+		diff["userinfo"] = true
+	}
+	switch {
+	case pa.host == pb.host:
+	case strings.EqualFold(pa.host, pb.host):
+		diff["case"] = true
+	case pa.host == pb.host+"." || pb.host == pa.host+".":
+		diff["dot"] = true
+	case strings.HasPrefix(pa.host, pb.host+"."):
+		diff["hostsfx"] = true
+	default:
+		diff["other"] = true
+	}
+	if pa.port != pb.port {
+		diff["port"] = true
+	}
+	switch {
+	case pa.path == pb.path:
+	case strings.HasPrefix(pa.path, pb.path+"/"):
+		diff["sub"] = true
+	case strings.HasPrefix(pb.path, pa.path+"/"):
+		diff["prefix"] = true
+	default:
+		diff["other"] = true
+	}
+	if pa.query != pb.query {
+		diff["query"] = true
+	}
+	if pa.frag != pb.frag {
+		diff["fragment"] = true
+	}
+	if len(diff) == 1 {
+		for k := range diff {
+			return k
+		}
 	}
 	return "other"
 }
@@ -285,6 +356,7 @@ type c15Ares struct {
 	Iss    string `json:"iss"`   // absent | equal | different | none
 	StVar  string `json:"stvar"`
 	IssVar string `json:"issvar"`
+	IssRel string `json:"issrel"` // relation class of the returned iss, from the concrete strings ("-": none returned)
 }
 
 type c15Out struct {
@@ -306,6 +378,7 @@ type c15Cfg struct {
 	RC     string `json:"rc"`
 	P      string `json:"p"`
 	PreIss string `json:"preiss"`
+	PreRel string `json:"prerel"` // relation of PreIss to the authorization server of the behaviour, from the concrete strings
 	InitTS bool   `json:"initts"`
 	Ch     string `json:"ch"`
 	Mcp    string `json:"mcp"`
@@ -344,6 +417,8 @@ type c15World struct {
 	hdrURL string
 	routes map[string]*c15Route
 	preIss string
+	specAS string // the authorization server of the specification's behaviour (what preIss is a variant of)
+	noIP6  bool
 	line   *c15Line
 	nDCR   int
 	nTok   int
@@ -363,7 +438,108 @@ func (w *c15World) scriptURL(cls, tag string) string {
 	return ""
 }
 
-func (w *c15World) loHost() string { return w.pick("127.0.0.1", "localhost", "[::1]", "127.0.0.9") }
+func (w *c15World) loHost() string {
+	if w.noIP6 {
+		// the behaviour asks for a host-suffix / trailing-dot variant of an identifier: not expressible for [::1]
+		return w.pick("127.0.0.1", "localhost", "localhost", "127.0.0.9")
+	}
+	return w.pick("127.0.0.1", "localhost", "[::1]", "127.0.0.9")
+}
+
+func c15HostPort(host, port string) string {
+	if strings.Contains(host, ":") {
+		host = "[" + host + "]"
+	}
+	if port != "" {
+		return host + ":" + port
+	}
+	return host
+}
+
+// issVariant concretises a relation class of OAuthFlow.tla: an identifier that stands in relation rel
+// to base.  The result is checked with c15Rel: a disagreement is a bug of the harness, not of the SDK.
+func (w *c15World) issVariant(base, rel string) string {
+	v, err := w.issVary(base, rel)
+	if err != nil {
+		panic("c15 harness: " + err.Error())
+	}
+	return v
+}
+
+func c15SwapCase(x string) string {
+	if up := strings.ToUpper(x); up != x {
+		return up
+	}
+	return strings.ToLower(x)
+}
+
+func (w *c15World) issVary(base, rel string) (string, error) {
+	u, err := url.Parse(base)
+	i := strings.Index(base, "://")
+	if err != nil || i <= 0 || u.User != nil || u.Host == "" {
+		return base + "/" + rel, fmt.Errorf("cannot vary %q", base)
+	}
+	scheme, rest := base[:i], base[i+3+len(u.Host):] // rest: path (query, fragment) as written
+	host, port := u.Hostname(), u.Port()
+	var v string
+	switch rel {
+	case "exact":
+		return base, nil
+	case "slash":
+		if strings.HasSuffix(base, "/") {
+			return strings.TrimSuffix(base, "/"), nil
+		}
+		return base + "/", nil
+	case "port":
+		var np string
+		if port == "" {
+			np = w.pick("8443", "444", "8080", "4443")
+		} else {
+			n, _ := strconv.Atoi(port)
+			np = w.pick(strconv.Itoa(n+1), strconv.Itoa(n-1), strconv.Itoa(n+1000), "1"+port, "")
+			if np == "" && (strings.EqualFold(scheme, "https") && port == "443" || strings.EqualFold(scheme, "http") && port == "80") {
+				np = strconv.Itoa(n + 1)
+			}
+		}
+		v = scheme + "://" + c15HostPort(host, np) + rest
+	case "scheme":
+		o := "https"
+		if strings.EqualFold(scheme, "https") {
+			o = "http"
+		}
+		v = o + "://" + u.Host + rest
+	case "userinfo":
+		v = scheme + "://" + w.pick("user@", "admin:pw@", "oauth@") + u.Host + rest
+	case "query":
+		v = base + w.pick("?x=1", "?", "?tenant=a")
+	case "fragment":
+		v = base + w.pick("#x", "#/other")
+	case "hostsfx":
+		v = scheme + "://" + c15HostPort(host+w.pick(".evil.example.org", ".attacker.test"), port) + rest
+	case "dot":
+		v = scheme + "://" + c15HostPort(host+".", port) + rest
+	case "case":
+		sw := c15SwapCase(host)
+		if sw == host || w.r.IntN(3) == 0 {
+			v = c15SwapCase(scheme) + "://" + u.Host + rest
+		} else {
+			if w.r.IntN(2) == 0 && strings.ToUpper(host[:1]) != host[:1] {
+				sw = strings.ToUpper(host[:1]) + host[1:]
+			}
+			v = scheme + "://" + c15HostPort(sw, port) + rest
+		}
+	case "sub":
+		v = base + w.pick("/sub", "/sub", "/..%2f")
+	case "prefix":
+		v = scheme + "://" + u.Host
+	default:
+		return base + "/" + rel, fmt.Errorf("unknown issuer relation %q", rel)
+	}
+	if got := c15Rel(v, base); got != rel {
+		return v, fmt.Errorf("%q is %q to %q, wanted %q", v, got, base, rel)
+	}
+	return v, nil
+}
 
 // notLoopback returns an authority on host that is not a loopback address but may look like one.
 func (w *c15World) notLoopback(host string) string {
@@ -579,7 +755,15 @@ func (w *c15World) buildASM(loc string, ch c15ASMChoice, asked string) *c15Doc {
 	case "iss_other":
 		iss = "https://evil.example.org"
 	case "iss_sub":
-		iss = asked + w.pick("/sub", "x", ".evil.example.org")
+		iss = asked + w.pick("/sub", "x", "/sub")
+	case "iss_port", "iss_scheme", "iss_userinfo", "iss_query", "iss_fragment", "iss_hostsfx", "iss_prefix", "iss_case", "iss_dot":
+		var err error
+		iss, err = w.issVary(asked, strings.TrimPrefix(o, "iss_"))
+		if cl := c15Class(asked); err != nil && (cl == "https" || cl == "lo") {
+			// (documents are also built for authorization servers the behaviour never reaches, e.g. the
+			// http://localhost@host of a rejected PRM document: there the variant need not be well-formed)
+			panic("c15 harness: " + err.Error())
+		}
 	case "no_pkce":
 		pkce = nil
 		if w.r.IntN(2) == 0 {
@@ -657,6 +841,11 @@ func c15NewWorld(s *c15Script, seed uint64) *c15World {
 	h := fnv.New64a()
 	h.Write([]byte(s.ID))
 	w := &c15World{s: s, r: rand.New(rand.NewPCG(seed, h.Sum64())), routes: map[string]*c15Route{}}
+	hostVar := func(x string) bool { return strings.HasSuffix(x, "hostsfx") || strings.HasSuffix(x, "dot") }
+	w.noIP6 = hostVar(s.P) || hostVar(s.Iss)
+	for _, c := range s.ASM {
+		w.noIP6 = w.noIP6 || hostVar(c.O)
+	}
 	path := w.pick("/mcp", "/api/v1/mcp", "/mcp")
 	switch s.Mcp {
 	case "lo":
@@ -715,17 +904,22 @@ func c15NewWorld(s *c15Script, seed uint64) *c15World {
 			}
 		}
 	}
+	w.specAS = specAS
 	switch s.P {
-	case "exact":
-		w.preIss = specAS
-	case "slash":
-		w.preIss = specAS + "/"
+	case "na", "unset":
 	case "hostonly":
 		if u, err := url.Parse(specAS); err == nil {
 			w.preIss = u.Scheme + "://" + u.Host
 		}
 	case "other":
-		w.preIss = w.pick("https://idp.other.example", specAS+".evil.example.org", strings.Replace(specAS, "://", "://x-", 1))
+		w.preIss = w.pick("https://idp.other.example", "https://login.example.net/tenant", strings.Replace(specAS, "://", "://x-", 1))
+	default:
+		if cl := c15Class(specAS); cl != "https" && cl != "lo" {
+			// the flow cannot reach registration with such an authorization server
+			w.preIss = "https://idp.other.example"
+		} else {
+			w.preIss = w.issVariant(specAS, s.P)
+		}
 	}
 	return w
 }
@@ -951,14 +1145,11 @@ func (w *c15World) fetch(ctx context.Context, args *auth.AuthorizationArgs) (*au
 		res.Iss = issInUse
 	case "different":
 		res.Iss = w.pick("https://evil.example.org", issInUse+".evil.example.org", strings.Replace(issInUse, "://", "://x-", 1))
-	case "slash":
-		if strings.HasSuffix(issInUse, "/") {
-			res.Iss = strings.TrimSuffix(issInUse, "/")
-		} else {
-			res.Iss = issInUse + "/"
-		}
 	default:
-		panic("unknown iss variant " + w.s.Iss)
+		// "slash" and the near-miss / equivalent classes of OAuthFlow.tla
+		// (no self-check here: under a changed SDK the issuer in use may itself be an odd identifier;
+		// the observation below is computed from the concrete strings)
+		res.Iss, _ = w.issVary(issInUse, w.s.Iss)
 	}
 	if res.State == state && state != "" {
 		w.line.Ares.State = "equal"
@@ -968,10 +1159,13 @@ func (w *c15World) fetch(ctx context.Context, args *auth.AuthorizationArgs) (*au
 	switch {
 	case res.Iss == "":
 		w.line.Ares.Iss = "absent"
-	case res.Iss == issInUse:
+	case res.Iss == issInUse: // RFC 9207: simple string comparison
 		w.line.Ares.Iss = "equal"
 	default:
 		w.line.Ares.Iss = "different"
+	}
+	if res.Iss != "" {
+		w.line.Ares.IssRel = c15Rel(res.Iss, issInUse)
 	}
 	return res, nil
 }
@@ -1015,7 +1209,7 @@ func c15ErrClass(err error) string {
 func c15Run(s *c15Script, seed uint64) *c15Line {
 	w := c15NewWorld(s, seed)
 	ln := &c15Line{ID: s.ID, Reqs: []c15Req{}, Served: []c15Served{}, Act: [][]string{},
-		Ares: c15Ares{State: "none", Iss: "none", StVar: "-", IssVar: "-"},
+		Ares: c15Ares{State: "none", Iss: "none", StVar: "-", IssVar: "-", IssRel: "-"},
 		Auth: c15Auth{Cls: "none", Cred: "none", Pre: "na"},
 		Exp:  c15Exp{Reqs: s.ExpReqs, Result: s.ExpResult, Changed: s.ExpChanged, Known: s.HasFinish}}
 	w.line = ln
@@ -1042,7 +1236,11 @@ func c15Run(s *c15Script, seed uint64) *c15Line {
 		init = &c15StaticTS{tok: &oauth2.Token{AccessToken: "initial-token"}}
 		cfg.InitialTokenSource = init
 	}
-	ln.Cfg = c15Cfg{RC: rc, P: s.P, PreIss: w.preIss, InitTS: init != nil, Ch: s.Ch, Mcp: s.Mcp, Status: status,
+	preRel := "unset"
+	if w.preIss != "" {
+		preRel = c15Rel(w.preIss, w.specAS)
+	}
+	ln.Cfg = c15Cfg{RC: rc, P: s.P, PreIss: w.preIss, PreRel: preRel, InitTS: init != nil, Ch: s.Ch, Mcp: s.Mcp, Status: status,
 		Header: strings.Join(hdrs, " || "), McpURL: w.mcpURL}
 	func() {
 		defer func() {
